@@ -138,6 +138,14 @@ def run(report, db, tier):
     check_no_rebinding(report, db, R4)
     check_no_outside_mutation(report, db, R4)
     check_no_memo(report, db, R4)
+    # the order the predicates define is the order the library *uses*: a
+    # version guard that orders the numbers themselves follows another order
+    from ..protocol import Proto
+    from .. import shared
+    R6 = report.rule('R08.6', 'protocol numbers are ordered only through '
+                     'the publication-order predicates, never numerically')
+    nf = shared.numeric_version_order(report, R6, db, Proto(db, F))
+    report.floor('functions scanned for numeric version order', nf, 300)
 
     R1 = report.rule('R08.1', 'the comparison predicates are the strict / '
                      'non-strict chronological order and its compositions')
